@@ -10,6 +10,7 @@ import tempfile
 from harness.common import np
 from harness.oracles import viol
 from harness import scen
+from boario.simulation import Simulation  # noqa: E402
 
 RECORDS = ["production_realised", "production_capacity", "final_demand", "intermediate_demand", "rebuild_demand",
            "overproduction", "final_demand_unmet", "rebuild_prod", "productive_capital_to_recover"]
@@ -155,6 +156,20 @@ def c13_units(sc, base, seed):
         n = base.get("n", 1) if "error" not in base else 1
         out += cmp_records("C13", base, b, "same events expressed with other monetary factors", rtol=1e-7,
                            extra_abs=q * 50, atol_scale=1e-9)
+    # the same Event objects used a second time (conversion must not be written back into the event)
+    if cap_ev:
+        evs = [scen.build_event(e) for e in sc["events"]]
+        runs = []
+        for _ in range(2):
+            try:
+                sim = Simulation(scen.build_model(sc["table"], sc["model"]), n_temporal_units_to_sim=sc["T"])
+                for ev in evs:
+                    sim.add_event(ev)
+                runs.append(run_records(sc, sim=sim))
+            except Exception as e:
+                runs.append({"error": f"{type(e).__name__}: {e}"})
+        out += cmp_records("C13", runs[0], runs[1], "same Event objects used in a second simulation")
+        out += cmp_records("C13", base, runs[0], "Event objects built once vs events of the base run")
     # common scale factor on table and impacts
     cfac = rng.choice([8.0, 1e3, 1e6])
     tw = copy.deepcopy(sc)
@@ -202,6 +217,23 @@ def c18_orders(sc, seed):
     b["model"]["order_type"] = "noalt"
     ra, rb = run_records(a), run_records(b)
     out += cmp_records("C18", ra, rb, "alt vs noalt orders on an event-free run", rtol=1e-9, atol_scale=1e-9)
+    # a shock that removes the same share of capacity from every supplier of an input (same sector in every
+    # region), overproduction disabled: all suppliers of each input keep the same relative capacity
+    rng = random.Random(seed + 5)
+    regs, secs, cats = scen.labels(sc["table"])
+    ssec = rng.choice(secs)
+    ev = {"type": "arbitrary", "occ": 2, "dur": rng.randint(2, 5), "name": None,
+          "impact": {f"{r}|{ssec}": 0.3 for r in regs}, "recovery_tau": rng.choice([3, 5]), "curve": "linear"}
+    outs = []
+    for ot in ("alt", "noalt"):
+        tw = copy.deepcopy(sc)
+        tw["events"] = [ev]
+        tw["T"] = 20
+        tw["model"]["order_type"] = ot
+        tw["model"]["alpha_max"] = tw["model"]["alpha_base"]
+        outs.append(run_records(tw))
+    out += cmp_records("C18", outs[0], outs[1], "alt vs noalt under a uniform capacity loss of every supplier of an input",
+                       rtol=1e-8, atol_scale=1e-9)
     return out
 
 
